@@ -217,6 +217,33 @@ def check(ctx, run):
         run.oblige("C11.R2", short, not bad_c0, "; ".join(sorted(set(bad_c0))) or "column 0 = initial state", sample={"rule": "C11.R2", "generator": short, "problems": sorted(set(bad_c0))})
         if bad_c0:
             run.fail(Finding("C11.R2", q, "; ".join(sorted(set(bad_c0))), "the first column is not the requested initial state", file=str(prog.modules[fi.module].path), line=fi.node.lineno))
+    # ---- R2 (bare scalar): the one-component generators document `init_state` as "tuple, float or tensor": a bare float x0 - including a
+    # falsy one such as 0.0 - must arrive in column 0 on every path (a truthiness test on the state swaps 0.0 for the default)
+    run.require("C11.R2s", 5)
+    for q, fi_, kw_ in E.generator_runs(ctx):
+        st = kw_.get("init_state")
+        if not (isinstance(st, tuple) and len(st) == 1):
+            continue
+        short = q.rsplit(".", 1)[-1]
+        kw2 = dict(kw_, init_state=st[0])
+        try:
+            res2 = [r for r in interp.explore(fi_, [], kw2, max_paths=200) if not r["raises"] and not any(e["kind"] == "recursion" for e in r["events"])]
+        except Unsupported as ex:
+            raise AnalysisError(f"{short} with a bare scalar initial state: {ex}")
+        bad = []
+        if not res2:
+            bad.append("no path accepts a bare float initial state")
+        for r in res2:
+            o = outputs_of(r["value"])[0]
+            c = Col0()
+            v0 = c.c0(o)
+            if v0 is None or sp.simplify(v0 - c.ts.sym(INIT[q][0])) != 0:
+                conds = ", ".join(f"{str(c_)[:40]}={d_}" for c_, d_, _ in r["cond"])
+                bad.append(f"column 0 is {v0} on the path [{conds}]")
+        run.oblige("C11.R2s", f"{short}(init_state=<bare float>)", not bad, "; ".join(sorted(set(bad))) or "column 0 = the requested value on every path")
+        if bad:
+            run.fail(Finding("C11.R2s", q, "; ".join(sorted(set(bad)))[:300], "a requested initial state given as a bare number is not what the series starts from (e.g. 0.0 replaced by the default)",
+                             file=str(prog.modules[fi_.module].path), line=fi_.node.lineno))
     # ---- R3 dtype provenance of every output (term-level: torch's promotion rules over the output term)
     from ..dtypes import DATA, provenance
     n_out = 0
